@@ -422,6 +422,8 @@ def jobs_for(tier):
     j += [lambda: g2_ob("TwistPoint::point_add", 2, chk_add, "point_add_mixed"), lambda: g2_ob("twist_point_add_full", 2, chk_add, "point_add_full"),
           lambda: g2_ob("TwistPoint::point_sub", 2, chk_sub, "point_sub"), lambda: g2_ob("TwistPoint::point_double", 1, chk_dbl, "point_double"),
           lambda: g2_ob("TwistPoint::point_neg", 1, chk_neg, "point_neg"), lambda: g2_ob("TwistPoint::point_equals", 2, chk_equals, "point_equals")]
+    import c13_l4
+    j = c13_l4.jobs(tier) + j          # the long ones first
     return j
 
 
@@ -431,4 +433,4 @@ def run(tier, seed, t0):
                   assumptions=["layering L1 -> L2 -> L3 as in C11; tower levels and G2 are checked over an abstract field one level down",
                                "reals as the generic field (polynomial identities with side conditions)", "points assumed on their curve where the group law needs it"],
                   explanation="MIR of gm-sm9 regenerated from /repo; every obligation is one or more unsat queries (z3).",
-                  rule="one obligation per function and layer; all distinct")
+                  rule="one obligation per function and layer; all distinct", replayer=__import__("c13_l4").replayer)
